@@ -63,7 +63,7 @@ structure TzAst where
 
 def IsNum (b : Bytes) (v : Nat) : Prop := b ≠ [] ∧ (∀ c ∈ b, isAsciiDigit c = true) ∧ digitsValue b = v
 
-/-- `b` spells the name `n`: an alphabetic run, or anything without '>' between '<' and '>' -/
+/-- `b` spells the name `n`: a non-empty alphabetic run, or anything without '>' between '<' and '>' -/
 def IsName (b n : Bytes) : Prop :=
   (b = n ∧ n ≠ [] ∧ (∀ c ∈ n, isAsciiAlphabetic c = true)) ∨ (b = [60] ++ n ++ [62] ∧ ∀ c ∈ n, c ≠ 62)
 
@@ -125,9 +125,16 @@ def ruleTime : Option Signed → Int
   | none => 7200
   | some t => signedSeconds t
 
-/-- The rule a syntax tree denotes; `none` when a numeric field is out of its range, a name is not
-    3–7 characters of the alphabet, or the DST rule is not one the rule constructor accepts (C11). -/
-def denote (ext : Bool) (t : TzAst) : Option TransitionRule :=
+/-- the parts a syntax tree denotes, before the constructors of the library are applied -/
+inductive Parts where
+  | fixed (std : LocalTimeType)
+  | alternate (std dst : LocalTimeType) (start : RuleDay) (startTime : Int) (stop : RuleDay) (stopTime : Int)
+  deriving DecidableEq, Repr
+
+/-- The parts a syntax tree denotes; `none` when a numeric field is out of its range or a name is not
+    3–7 characters of the alphabet. Conventions: UTC offset = −(h:m:s), sign applied to the whole;
+    missing DST offset = one hour ahead of standard; missing time = 02:00:00. -/
+def denoteParts (ext : Bool) (t : TzAst) : Option Parts :=
   if !(hmsOk 24 t.offset.hms && nameValid t.name) then none else
   let stdOff : Int := -(signedSeconds t.offset)
   let std : LocalTimeType := { utOffset := stdOff, isDst := false, name := some t.name }
@@ -141,9 +148,24 @@ def denote (ext : Bool) (t : TzAst) : Option TransitionRule :=
       | none => stdOff + 3600
       | some o => -(signedSeconds o)
     let dst : LocalTimeType := { utOffset := dstOff, isDst := true, name := some d.name }
-    let a : AlternateTime := { std, dst, dstStart := dayDenote d.start.day, dstStartTime := ruleTime d.start.time,
-                               dstEnd := dayDenote d.stop.day, dstEndTime := ruleTime d.stop.time }
+    some (.alternate std dst (dayDenote d.start.day) (ruleTime d.start.time) (dayDenote d.stop.day) (ruleTime d.stop.time))
+
+/-- the library's own constructors applied to the parts (C11 characterises `AlternateTime.new`) -/
+def build : Parts → Option TransitionRule
+  | .fixed std => some (.fixed std)
+  | .alternate std dst ds st de et =>
+    match AlternateTime.new std dst ds st de et with
+    | .ok a => some (.alternate a)
+    | .error _ => none
+
+/-- the same with the spec's consistency condition in place of the constructor (used by the oracle) -/
+def buildSpec : Parts → Option TransitionRule
+  | .fixed std => some (.fixed std)
+  | .alternate std dst ds st de et =>
+    let a : AlternateTime := { std, dst, dstStart := ds, dstStartTime := st, dstEnd := de, dstEndTime := et }
     if consistentB a then some (.alternate a) else none
+
+def denote (ext : Bool) (t : TzAst) : Option TransitionRule := (denoteParts ext t).bind buildSpec
 
 /-! ### Executable reference reader (recursive descent over the productions above) -/
 
@@ -190,6 +212,7 @@ def rName : R Bytes := do
     | _ => failure
   | s =>
     let n := s.takeWhile isAsciiAlphabetic
+    if n.isEmpty then failure
     set (s.dropWhile isAsciiAlphabetic)
     pure n
 
@@ -212,8 +235,7 @@ def rRule : R RuleAst := do
   | 47 :: _ => rByte 47; let t ← rSigned; pure { day := d, time := some t }
   | _ => pure { day := d, time := none }
 
-/-- the reference reader: syntax tree of a complete match, `none` otherwise.
-    (Names: an unquoted name may be empty for the reader; `denote` refuses it through `nameValid`.) -/
+/-- the reference reader: syntax tree of a complete match, `none` otherwise -/
 def readTz (ext : Bool) (b : Bytes) : Option TzAst :=
   let p : R TzAst := do
     let name ← rName
